@@ -1,7 +1,14 @@
 package main
 
-// One persistent SMT solver process (SMT-LIB2 over stdin/stdout) with push/pop.
-// Shared sub-terms are emitted once as define-fun at level 0 before the push.
+// SMT solver access (SMT-LIB2 over stdin/stdout).
+//
+// Main process: one persistent `z3 -in`; shared sub-terms are emitted once as define-fun at level 0 and
+// persist; each query is push / asserts / check-sat / pop with a short time limit. z3's incremental core
+// is fast on the many small queries of path exploration but can be orders of magnitude slower than its
+// default strategy on a large bit-vector/array goal, and does not always honour its timeout. Therefore a
+// query that comes back `unknown` (or makes the process overrun a wall-clock watchdog) is re-solved by a
+// *fresh* z3 process that receives only the cone of definitions of that query and no push/pop, so that
+// the full (non-incremental) strategy applies, under the full time limit.
 
 import (
 	"bufio"
@@ -14,94 +21,141 @@ import (
 	"time"
 )
 
-type Solver struct {
-	Bin       string
-	cmd       *exec.Cmd
-	in        io.WriteCloser
-	out       *bufio.Reader
-	defined   map[int]bool
-	defLevel  map[int]int // term id -> push level at which it was declared/defined
-	levelDefs [][]int     // ids defined at each push level (index = level)
-	stack     []*Term     // assertion at each push level (level i+1 holds stack[i])
-	flatOpen  bool
-	Queries   int
-	Sat       int
-	Unsat     int
-	Unknown   int
-	Errors    int
-	Time      time.Duration
-	MaxQuery  time.Duration
-	log       io.Writer
-	lastSat   bool
-	timeoutMs int
-	nDefs     int
+type proc struct {
+	cmd   *exec.Cmd
+	in    io.WriteCloser
+	lines chan string
 }
 
-func NewSolver(bin string, timeoutMs int) *Solver {
-	s := &Solver{Bin: bin, timeoutMs: timeoutMs}
-	s.start()
-	return s
-}
-
-func (s *Solver) start() {
-	args := []string{"-in"}
-	if strings.Contains(s.Bin, "cvc5") {
-		args = []string{"--incremental", "--produce-models", fmt.Sprintf("--tlimit-per=%d", s.timeoutMs)}
-	}
-	cmd := exec.Command(s.Bin, args...)
+func startProc(bin string, args ...string) *proc {
+	cmd := exec.Command(bin, args...)
 	in, _ := cmd.StdinPipe()
 	o, _ := cmd.StdoutPipe()
 	cmd.Stderr = cmd.Stdout
 	if err := cmd.Start(); err != nil {
 		panic(err)
 	}
-	s.cmd, s.in, s.out = cmd, in, bufio.NewReaderSize(o, 1<<20)
+	p := &proc{cmd: cmd, in: in, lines: make(chan string, 1024)}
+	go func() {
+		rd := bufio.NewReaderSize(o, 1<<20)
+		for {
+			line, err := rd.ReadString('\n')
+			if line != "" {
+				p.lines <- line
+			}
+			if err != nil {
+				close(p.lines)
+				return
+			}
+		}
+	}()
+	return p
+}
+
+func (p *proc) kill() {
+	if p == nil || p.cmd == nil {
+		return
+	}
+	p.in.Close()
+	p.cmd.Process.Kill()
+	go p.cmd.Wait()
+	p.cmd = nil
+}
+
+// readLine returns the next output line, or ok=false on timeout / process end.
+func (p *proc) readLine(d time.Duration) (string, bool) {
+	select {
+	case l, ok := <-p.lines:
+		return l, ok
+	case <-time.After(d):
+		return "", false
+	}
+}
+
+type Solver struct {
+	Bin       string
+	main      *proc
+	alt       *proc // fresh process holding the model of the last fallback query
+	defined   map[int]bool
+	open      bool
+	Queries   int
+	Sat       int
+	Unsat     int
+	Unknown   int
+	Errors    int
+	Fallbacks int
+	Time      time.Duration
+	MaxQuery  time.Duration
+	log       io.Writer
+	lastSat   bool
+	useAlt    bool
+	altDef    map[int]bool
+	timeoutMs int
+	fastMs    int
+	nDefs     int
+}
+
+func NewSolver(bin string, timeoutMs int) *Solver {
+	fast := 3000
+	if timeoutMs > 60000 {
+		fast = 10000
+	}
+	if timeoutMs < fast {
+		fast = timeoutMs
+	}
+	s := &Solver{Bin: bin, timeoutMs: timeoutMs, fastMs: fast}
+	s.start()
+	return s
+}
+
+func (s *Solver) start() {
+	s.main = startProc(s.Bin, "-in")
 	s.defined = map[int]bool{}
-	s.defLevel = map[int]int{}
-	s.levelDefs = [][]int{nil}
-	s.stack = nil
-	s.flatOpen = false
+	s.open = false
 	s.lastSat = false
 	s.nDefs = 0
 	if p := os.Getenv("VF_SMTLOG"); p != "" && s.log == nil {
 		f, _ := os.Create(p)
 		s.log = f
 	}
-	if strings.Contains(s.Bin, "cvc5") {
-		s.send("(set-logic ALL)")
-	} else {
-		s.send("(set-option :produce-models true)")
-		s.send(fmt.Sprintf("(set-option :timeout %d)", s.timeoutMs))
-	}
+	s.send("(set-option :produce-models true)")
+	s.send(fmt.Sprintf("(set-option :timeout %d)", s.fastMs))
 }
 
-// Restart drops all definitions (keeps the process table small on long runs).
 func (s *Solver) Restart() {
-	s.Close()
+	s.main.kill()
 	s.start()
 }
 
 func (s *Solver) Close() {
-	if s.cmd != nil {
-		s.in.Close()
-		s.cmd.Process.Kill()
-		s.cmd.Wait()
-		s.cmd = nil
-	}
+	s.main.kill()
+	s.alt.kill()
+	s.alt = nil
 }
 
 func (s *Solver) send(x string) {
 	if s.log != nil {
 		fmt.Fprintln(s.log, x)
 	}
-	io.WriteString(s.in, x+"\n")
+	io.WriteString(s.main.in, x+"\n")
 }
 
-func (s *Solver) define(t *Term, lv int) {
-	if s.defined[t.id] {
-		return
+func defLine(x *Term) string {
+	switch x.Op {
+	case "const", "true", "false":
+		return ""
+	case "var":
+		return fmt.Sprintf("(declare-const %s %s)", x.Name, sortOf(x))
 	}
-	// iterative post-order to avoid deep recursion on long chains
+	return fmt.Sprintf("(define-fun t%d () %s %s)", x.id, sortOf(x), body(x))
+}
+
+// emitDefs sends the definitions of t's cone that are not yet in `defined` (post-order, iterative).
+func emitDefs(t *Term, defined map[int]bool, emit func(string)) int {
+	if defined[t.id] {
+		return 0
+	}
+	n := 0
 	type fr struct {
 		t *Term
 		i int
@@ -109,107 +163,41 @@ func (s *Solver) define(t *Term, lv int) {
 	st := []fr{{t, 0}}
 	for len(st) > 0 {
 		top := &st[len(st)-1]
-		if s.defined[top.t.id] {
+		if defined[top.t.id] {
 			st = st[:len(st)-1]
 			continue
 		}
 		if top.i < len(top.t.Args) {
 			a := top.t.Args[top.i]
 			top.i++
-			if !s.defined[a.id] {
+			if !defined[a.id] {
 				st = append(st, fr{a, 0})
 			}
 			continue
 		}
 		x := top.t
-		s.defined[x.id] = true
-		s.defLevel[x.id] = lv
-		for len(s.levelDefs) <= lv {
-			s.levelDefs = append(s.levelDefs, nil)
-		}
-		s.levelDefs[lv] = append(s.levelDefs[lv], x.id)
-		s.nDefs++
-		switch x.Op {
-		case "const", "true", "false":
-		case "var":
-			s.send(fmt.Sprintf("(declare-const %s %s)", x.Name, sortOf(x)))
-		default:
-			s.send(fmt.Sprintf("(define-fun t%d () %s %s)", x.id, sortOf(x), body(x)))
+		defined[x.id] = true
+		n++
+		if l := defLine(x); l != "" {
+			emit(l)
 		}
 		st = st[:len(st)-1]
 	}
+	return n
 }
 
-// Check returns "sat", "unsat" or "unknown" (timeouts and solver errors are "unknown").
-// The assertion list is kept on the solver's push/pop stack: consecutive queries that share a prefix
-// (the path condition of a depth-first exploration) only send what changed.
-func (s *Solver) Check(assertions ...*Term) string {
-	t0 := time.Now()
-	s.lastSat = false
-	if s.nDefs > 2000000 {
-		s.Restart()
-	}
-	if s.flatOpen {
-		s.send("(pop 1)")
-		s.flatOpen = false
-	}
-	var as []*Term
-	for _, a := range assertions {
-		if a != True {
-			as = append(as, a)
-		}
-	}
-	common := 0
-	for common < len(s.stack) && common < len(as) && s.stack[common] == as[common] {
-		common++
-	}
-	if k := len(s.stack) - common; k > 0 {
-		s.send(fmt.Sprintf("(pop %d)", k))
-		s.stack = s.stack[:common]
-		for lv := common + 1; lv < len(s.levelDefs); lv++ {
-			for _, id := range s.levelDefs[lv] {
-				delete(s.defLevel, id)
-				delete(s.defined, id)
-			}
-			s.levelDefs[lv] = s.levelDefs[lv][:0]
-		}
-	}
-	// large new terms (goals, reference renderings) are defined once at level 0, where they persist;
-	// small increments (branch conditions) are defined inside the stack
-	if n := s.countUndefined(as[common:], 300); n >= 300 {
-		if len(s.stack) > 0 {
-			s.send(fmt.Sprintf("(pop %d)", len(s.stack)))
-			s.stack = s.stack[:0]
-			for lv := 1; lv < len(s.levelDefs); lv++ {
-				for _, id := range s.levelDefs[lv] {
-					delete(s.defLevel, id)
-					delete(s.defined, id)
-				}
-				s.levelDefs[lv] = s.levelDefs[lv][:0]
-			}
-		}
-		common = 0
-		for _, a := range as {
-			s.define(a, 0)
-		}
-	}
-	for _, a := range as[common:] {
-		s.send("(push 1)")
-		s.define(a, len(s.stack)+1)
-		s.stack = append(s.stack, a)
-		s.send("(assert " + ref(a) + ")")
-	}
-	s.send("(check-sat)")
+// readAnswer waits for sat/unsat/unknown from p; a watchdog turns a silent process into "unknown".
+func (s *Solver) readAnswer(p *proc, limit time.Duration) (string, bool) {
+	deadline := time.Now().Add(limit)
 	r := "unknown"
 	for {
-		line, err := s.out.ReadString('\n')
-		if err != nil {
-			s.Errors++
-			s.start()
-			s.Queries++
-			s.Unknown++
-			s.Time += time.Since(t0)
-			return "unknown"
+		left := time.Until(deadline)
+		if left <= 0 {
+			return "unknown", false
+		}
+		line, ok := p.readLine(left)
+		if !ok {
+			return "unknown", false
 		}
 		line = strings.TrimSpace(line)
 		if line == "sat" || line == "unsat" || line == "unknown" || line == "timeout" {
@@ -217,101 +205,53 @@ func (s *Solver) Check(assertions ...*Term) string {
 			if r == "timeout" {
 				r = "unknown"
 			}
-			break
+			return r, true
 		}
 		if strings.HasPrefix(line, "(error") {
 			s.Errors++
 			fmt.Fprintln(os.Stderr, "SOLVER ERROR:", line)
-			r = "unknown"
-			continue
+			// keep reading: the check-sat answer still follows; the result is downgraded to unknown
+			r2, alive := s.readAnswer(p, time.Until(deadline))
+			_ = r2
+			return "unknown", alive
 		}
 	}
-	s.Queries++
-	switch r {
-	case "sat":
-		s.Sat++
-	case "unsat":
-		s.Unsat++
-	default:
-		s.Unknown++
-	}
-	s.lastSat = r == "sat"
-	d := time.Since(t0)
-	s.Time += d
-	if d > s.MaxQuery {
-		s.MaxQuery = d
-	}
-	return r
 }
 
-// CheckFlat: all definitions at level 0 (they persist), the assertions inside one push level.
+// CheckFlat returns "sat", "unsat" or "unknown".
 func (s *Solver) CheckFlat(assertions ...*Term) string {
 	t0 := time.Now()
-	s.lastSat = false
+	s.lastSat, s.useAlt = false, false
+	if s.alt != nil {
+		s.alt.kill()
+		s.alt = nil
+	}
 	if s.nDefs > 1500000 {
 		s.Restart()
 	}
-	if len(s.stack) > 0 {
-		s.send(fmt.Sprintf("(pop %d)", len(s.stack)))
-		s.stack = s.stack[:0]
-		for lv := 1; lv < len(s.levelDefs); lv++ {
-			for _, id := range s.levelDefs[lv] {
-				delete(s.defLevel, id)
-				delete(s.defined, id)
-			}
-			s.levelDefs[lv] = s.levelDefs[lv][:0]
-		}
-	}
-	if s.flatOpen {
+	if s.open {
 		s.send("(pop 1)")
-		s.flatOpen = false
+		s.open = false
 	}
 	for _, a := range assertions {
-		s.define(a, 0)
+		s.nDefs += emitDefs(a, s.defined, s.send)
 	}
 	s.send("(push 1)")
-	s.flatOpen = true
+	s.open = true
 	for _, a := range assertions {
 		if a != True {
 			s.send("(assert " + ref(a) + ")")
 		}
 	}
 	s.send("(check-sat)")
-	r := s.readAnswer()
-	s.lastSat = r == "sat"
-	d := time.Since(t0)
-	s.Time += d
-	if d > s.MaxQuery {
-		s.MaxQuery = d
+	r, alive := s.readAnswer(s.main, time.Duration(s.fastMs)*time.Millisecond+5*time.Second)
+	if !alive {
+		// the process overran its own timeout (or died): replace it
+		s.Errors++
+		s.Restart()
 	}
-	return r
-}
-
-func (s *Solver) readAnswer() string {
-	r := "unknown"
-	for {
-		line, err := s.out.ReadString('\n')
-		if err != nil {
-			s.Errors++
-			s.start()
-			s.Queries++
-			s.Unknown++
-			return "unknown"
-		}
-		line = strings.TrimSpace(line)
-		if line == "sat" || line == "unsat" || line == "unknown" || line == "timeout" {
-			r = line
-			if r == "timeout" {
-				r = "unknown"
-			}
-			break
-		}
-		if strings.HasPrefix(line, "(error") {
-			s.Errors++
-			fmt.Fprintln(os.Stderr, "SOLVER ERROR:", line)
-			r = "unknown"
-			continue
-		}
+	if r == "unknown" {
+		r = s.fallback(assertions)
 	}
 	s.Queries++
 	switch r {
@@ -322,31 +262,56 @@ func (s *Solver) readAnswer() string {
 	default:
 		s.Unknown++
 	}
+	s.lastSat = r == "sat"
+	d := time.Since(t0)
+	s.Time += d
+	if d > s.MaxQuery {
+		s.MaxQuery = d
+	}
 	return r
 }
 
-// countUndefined counts terms reachable from ts that are not defined yet (stops at limit).
-func (s *Solver) countUndefined(ts []*Term, limit int) int {
-	seen := map[int]bool{}
-	n := 0
-	var st []*Term
-	st = append(st, ts...)
-	for len(st) > 0 && n < limit {
-		t := st[len(st)-1]
-		st = st[:len(st)-1]
-		if seen[t.id] || s.defined[t.id] {
-			continue
-		}
-		seen[t.id] = true
-		n++
-		st = append(st, t.Args...)
+// Check is kept as an alias of CheckFlat.
+func (s *Solver) Check(assertions ...*Term) string { return s.CheckFlat(assertions...) }
+
+// fallback: fresh process, only this query's cone, no push/pop, full time limit.
+func (s *Solver) fallback(assertions []*Term) string {
+	s.Fallbacks++
+	p := startProc(s.Bin, "-in")
+	var sb strings.Builder
+	sb.WriteString("(set-option :produce-models true)\n")
+	fmt.Fprintf(&sb, "(set-option :timeout %d)\n", s.timeoutMs)
+	def := map[int]bool{}
+	for _, a := range assertions {
+		emitDefs(a, def, func(l string) { sb.WriteString(l); sb.WriteByte('\n') })
 	}
-	return n
+	for _, a := range assertions {
+		if a != True {
+			sb.WriteString("(assert " + ref(a) + ")\n")
+		}
+	}
+	sb.WriteString("(check-sat)\n")
+	if s.log != nil {
+		fmt.Fprintln(s.log, "; ---- fallback query in a fresh process")
+	}
+	go io.WriteString(p.in, sb.String())
+	r, alive := s.readAnswer(p, time.Duration(s.timeoutMs)*time.Millisecond+10*time.Second)
+	if !alive || r != "sat" {
+		p.kill()
+		return r
+	}
+	s.alt, s.altDef, s.useAlt = p, def, true
+	return r
 }
 
 // Done releases the model of the last sat answer.
 func (s *Solver) Done() {
 	s.lastSat = false
+	if s.alt != nil {
+		s.alt.kill()
+		s.alt = nil
+	}
+	s.useAlt = false
 }
 
 // Value evaluates a bit-vector or Bool term in the current model (after a sat answer, before Done).
@@ -363,56 +328,51 @@ func (s *Solver) Value(t *Term) (uint64, bool) {
 	if t == False {
 		return 0, true
 	}
-	if !s.defined[t.id] {
-		// defining needs level 0: not possible inside the push; use an inline let-free expansion
-		return s.valueInline(t)
+	p, defined := s.main, s.defined
+	if s.useAlt {
+		p, defined = s.alt, s.altDef
 	}
-	s.send("(get-value (" + ref(t) + "))")
-	return s.readValue()
+	expr, ok := inlineExpr(t, defined)
+	if !ok {
+		return 0, false
+	}
+	cmd := "(get-value (" + expr + "))"
+	if s.log != nil && !s.useAlt {
+		fmt.Fprintln(s.log, cmd)
+	}
+	io.WriteString(p.in, cmd+"\n")
+	return readValue(p)
 }
 
-func (s *Solver) valueInline(t *Term) (uint64, bool) {
-	// Expand the term as a tree with let-bindings for undefined sub-terms.
-	var sb strings.Builder
+// inlineExpr renders t with let-bindings for the sub-terms the solver has no definition for.
+// ok=false when t mentions a variable the solver never saw (its value is arbitrary).
+func inlineExpr(t *Term, defined map[int]bool) (string, bool) {
+	if defined[t.id] {
+		return ref(t), true
+	}
 	seen := map[int]bool{}
 	var order []*Term
+	undeclared := false
 	var walk func(x *Term)
 	walk = func(x *Term) {
-		if s.defined[x.id] || seen[x.id] || x.Op == "const" || x.Op == "true" || x.Op == "false" {
+		if defined[x.id] || seen[x.id] || x.Op == "const" || x.Op == "true" || x.Op == "false" {
 			return
 		}
-		if x.Op == "var" {
-			return // undeclared variable: unconstrained, caller treats as 0
-		}
 		seen[x.id] = true
+		if x.Op == "var" {
+			undeclared = true
+			return
+		}
 		for _, a := range x.Args {
 			walk(a)
 		}
 		order = append(order, x)
 	}
 	walk(t)
-	// any undeclared var makes the value arbitrary: substitute zero
-	undeclared := false
-	var chk func(x *Term)
-	vis := map[int]bool{}
-	chk = func(x *Term) {
-		if vis[x.id] {
-			return
-		}
-		vis[x.id] = true
-		if x.Op == "var" && !s.defined[x.id] {
-			undeclared = true
-		}
-		if !s.defined[x.id] {
-			for _, a := range x.Args {
-				chk(a)
-			}
-		}
-	}
-	chk(t)
 	if undeclared {
-		return 0, false
+		return "", false
 	}
+	var sb strings.Builder
 	for _, x := range order {
 		fmt.Fprintf(&sb, "(let ((t%d %s)) ", x.id, body(x))
 	}
@@ -420,17 +380,15 @@ func (s *Solver) valueInline(t *Term) (uint64, bool) {
 	for range order {
 		sb.WriteString(")")
 	}
-	s.send("(get-value (" + sb.String() + "))")
-	return s.readValue()
+	return sb.String(), true
 }
 
-func (s *Solver) readValue() (uint64, bool) {
-	// answer: ((<expr> <value>)) possibly spanning lines; read until parentheses balance
+func readValue(p *proc) (uint64, bool) {
 	var sb strings.Builder
 	depth, started := 0, false
 	for {
-		line, err := s.out.ReadString('\n')
-		if err != nil {
+		line, ok := p.readLine(30 * time.Second)
+		if !ok {
 			return 0, false
 		}
 		sb.WriteString(line)
@@ -465,7 +423,6 @@ func (s *Solver) readValue() (uint64, bool) {
 		v, err := strconv.ParseUint(tok[2:], 2, 64)
 		return v, err == nil
 	}
-	// (_ bvN w)
 	if j := strings.LastIndex(txt, "(_ bv"); j >= 0 {
 		f := strings.Fields(txt[j+5:])
 		if len(f) > 0 {
